@@ -10,21 +10,29 @@ pub open spec fn sub_post(a: P4, b: P4, r: P4) -> bool { on_curve(a) && on_curve
 #[verifier::external_body]
 pub struct EdwardsProjective { _p: u8 }
 pub uninterp spec fn repr(p: EdwardsProjective) -> P4;
+// the coordinates of a native point are field elements (A-ARK-2)
+pub broadcast axiom fn repr_range(p: EdwardsProjective)
+    ensures in_fq(#[trigger] repr(p).x), in_fq(repr(p).y), in_fq(repr(p).z), in_fq(repr(p).t);
 #[derive(Clone, Copy)]
 pub struct Element { pub inner: EdwardsProjective }
 impl Element {
     // native encoder (its contract is C01/C03; the soundness reading never looks at the value a prover computes)
     #[verifier::external_body]
-    pub fn vartime_compress_to_field(&self) -> (r: Fq) { unimplemented!() }
+    pub fn vartime_compress_to_field(&self) -> (r: Fq)
+//#if COMPL
+        ensures r.val() == spec_encode(repr(self.inner))      // the native encoder's contract (C03, unit ark_encoding)
+//#endif
+    { unimplemented!() }
 }
 // ark_r1cs_std::alloc::AllocationMode, ark_relations::r1cs::Namespace, core::borrow::Borrow
 pub enum AllocationMode { Constant, Input, Witness }
 #[verifier::external_body]
 #[verifier::reject_recursive_types(F)]
 pub struct Namespace<F> { _p: core::marker::PhantomData<F> }
+pub uninterp spec fn ns_cs<F>(ns: Namespace<F>) -> ConstraintSystemRef<F>;
 impl<F> Namespace<F> {
     #[verifier::external_body]
-    pub fn cs(&self) -> (r: ConstraintSystemRef<F>) { unimplemented!() }
+    pub fn cs(&self) -> (r: ConstraintSystemRef<F>) ensures r == ns_cs(*self) { unimplemented!() }
 }
 pub trait Borrow<B> { spec fn borrow_spec(&self) -> B; fn borrow(&self) -> (r: &B) ensures *r == self.borrow_spec(); }
 impl Borrow<Element> for Element { open spec fn borrow_spec(&self) -> Element { *self } fn borrow(&self) -> (r: &Element) { self } }
@@ -38,9 +46,14 @@ impl Decaf377EdwardsVar {
     pub fn new_variable_omit_prime_order_check<T: FnOnce() -> Result<EdwardsProjective, SynthesisError>>(cs: ConstraintSystemRef<Fq>, f: T, mode: AllocationMode)
         -> (r: Result<Decaf377EdwardsVar, SynthesisError>)
 //#if COMPL
-        requires call_requires(f, ())
-//#endif
+        // honest reading: the offered point satisfies the curve equation (the one constraint this gadget enforces), the hint
+        // closure answers, and there is a constraint system to allocate in; the variable then holds the affine coordinates
+        requires call_requires(f, ()), !(mode is Constant) ==> !cs_none(cs),
+                 forall|q: Result<EdwardsProjective, SynthesisError>| #[trigger] call_ensures(f, (), q) ==> q is Ok && on_curve(repr(q->Ok_0))
+        ensures match r { Ok(v) => exists|h: EdwardsProjective| call_ensures(f, (), Ok::<EdwardsProjective, SynthesisError>(h)) && proj_eq(pva(v), repr(h)) && on_curve(pva(v)), Err(_) => false }
+//#else
         ensures match r { Ok(v) => !(mode is Constant) ==> on_curve(pva(v)), Err(_) => true }
+//#endif
     { unimplemented!() }
     #[verifier::external_body]
     pub fn zero() -> (r: Decaf377EdwardsVar) ensures pva(r) == id4() { unimplemented!() }
